@@ -2,8 +2,8 @@
 from common import *
 import scripts
 
-THEOREMS = ['capture_exact', 'capture_exact_tracks', 'tracks_bind', 'tracks_capture', 'nested_capture_exact', 'nested_example', 'capture_one_exact', 'capture_all_exact', 'eoc_not_captured', 'Bcder.Props.C11b.capture_one_value', 'Bcder.Props.C11b.capture_all_indef_values', 'Bcder.Props.C11b.untilEoc_values', 'Bcder.Props.C11b.parse_prefix', 'Bcder.Props.C11b.captured_value_decodes', 'Bcder.Props.C11b.captured_value_read_later', 'Bcder.Props.C11b.decode_later_same', 'Bcder.Props.C11b.reencode_unchanged']
-EXTRA_MODULES = ['C11b']
+THEOREMS = ['capture_exact', 'Bcder.Props.C11c.framable_bind', 'Bcder.Props.C11c.capture_run1', 'Bcder.Props.C11c.framable_capture', 'Bcder.Props.C11c.good_pnv', 'Bcder.Props.C11c.good_pnvIf', 'Bcder.Props.C11c.good_mandatory', 'Bcder.Props.C11c.good_seq', 'Bcder.Props.C11c.good_skipOpt', 'Bcder.Props.C11c.good_skipOne', 'Bcder.Props.C11c.good_skipAll', 'Bcder.Props.C11c.good_capture', 'Bcder.Props.C11c.good_captureOne', 'Bcder.Props.C11c.good_captureAll', 'Bcder.Props.C11c.capture_no_marker', 'Bcder.Props.C11c.d12b_example', 'capture_exact_tracks', 'tracks_bind', 'tracks_capture', 'nested_capture_exact', 'nested_example', 'capture_one_exact', 'capture_all_exact', 'eoc_not_captured', 'Bcder.Props.C11b.capture_one_value', 'Bcder.Props.C11b.capture_all_indef_values', 'Bcder.Props.C11b.untilEoc_values', 'Bcder.Props.C11b.parse_prefix', 'Bcder.Props.C11b.captured_value_decodes', 'Bcder.Props.C11b.captured_value_read_later', 'Bcder.Props.C11b.decode_later_same', 'Bcder.Props.C11b.reencode_unchanged']
+EXTRA_MODULES = ['C11b', 'C11c']
 RULE = ("capture bodies reading j <= n values by every accessor family (generic, typed, skip), capture_one, capture_all, in definite / "
         "indefinite / top-level parents at depth <= 3, 3 modes; then Captured::decode, repeated decode_partial, and reading on after the "
         "capture. Oracle computed by the generator: the captured octets are the concatenation of the complete encodings of the values "
@@ -31,9 +31,9 @@ def gen(tier, rng):
         trees = [rand_tree(rng, m, maxdepth=3) if rng.random() < 0.7 else scripts.typed_leaf(rng, m)[0] for _ in range(n)]
         encs = [t.encode() for t in trees]
         kind = rng.choice(["cap", "cap", "cap", "capone", "capall"])
-        ctx = rng.choice(["top", "def", "indef", "nested"])
-        if m == "cer" and ctx in ("def", "nested"): ctx = "indef"
-        if m == "der" and ctx == "indef": ctx = "def"
+        ctx = rng.choice(["top", "def", "indef", "nested", "indef_in_def", "def_in_indef"])
+        if m == "cer" and ctx in ("def", "nested", "indef_in_def", "def_in_indef"): ctx = "indef"
+        if m == "der" and ctx in ("indef", "indef_in_def", "def_in_indef"): ctx = "def"
         sees_end = False
         if kind == "cap":
             j = rng.randrange(0, n + 1)
@@ -68,6 +68,17 @@ def gen(tier, rng):
             if m == "ber" and rng.random() < 0.3:
                 eoc = rng.choice([b"\x00\x81\x00", b"\x00\x82\x00\x00", b"\x00\x83\x00\x00\x00", b"\x00\x84\x00\x00\x00\x00"])
             data, script = b"\x30\x80" + data_body + eoc, "tc { %s }" % inner
+        elif ctx == "indef_in_def":
+            # an indefinite value inside a definite one, followed by a sibling: the limit in force while
+            # the inner value is read is the OUTER value's (added after seeded change C11-5 slipped through
+            # once the cross-stream sample had changed)
+            eoc = b"\x00\x00"
+            mid = b"\xa1\x80" + data_body + eoc
+            sib = b"\x01\x01\xff"
+            data, script = b"\x30" + length(len(mid) + len(sib)) + mid + sib, "tc { tc { %s } all }" % inner
+        elif ctx == "def_in_indef":
+            mid = b"\xa1" + length(len(data_body)) + data_body
+            data, script = b"\x30\x80" + mid + b"\x05\x00\x00\x00", "tc { tc { %s } all }" % inner
         else:
             mid = b"\xa1" + length(len(data_body)) + data_body
             data, script = b"\x30" + length(len(mid)) + mid, "tc { tc { %s } }" % inner
@@ -81,11 +92,81 @@ def gen(tier, rng):
         inplace = "run %s slice %s all" % (m, hx(want))
         out.append(inplace)
         ORACLE[req] = (want, eoc if sees_end else b"", inplace, follow, nofollow)
+    # ---- captures inside a capture (added after seeded change C11-6: an inner capture that runs into the
+    # end-of-contents marker of the enclosing value must hand the marker's size to the outer capture too).
+    # Every capture of the script emits one C token, inner ones first; the outer one is the last.
+    for _ in range(3000 if tier == "quick" else 30000):
+        m = rng.choice(modes)
+        n = rng.choice([1, 2, 2, 3, 4])
+        trees = [rand_tree(rng, m, maxdepth=2) if rng.random() < 0.6 else scripts.typed_leaf(rng, m)[0] for _ in range(n)]
+        encs = [t.encode() for t in trees]
+        ctx = rng.choice(["top", "def", "indef", "indef", "indef_in_def"])
+        if m == "cer" and ctx in ("def", "indef_in_def"): ctx = "indef"
+        if m == "der" and ctx in ("indef", "indef_in_def"): ctx = "def"
+        # split the n values into groups; each group is read plainly or by an inner capture
+        parts, wants, i = [], [], 0
+        depth2 = rng.random() < 0.3
+        while i < n:
+            k = rng.randrange(1, n - i + 1)
+            last = (i + k == n)
+            form = rng.choice(["plain", "capone", "cap", "capall" if last else "cap"])
+            if form == "plain":
+                parts.append(" ".join(["tv G"] * k))
+            elif form == "capone":
+                parts.append("capone " + " ".join(["tv G"] * (k - 1)))
+                wants.append(encs[i])
+            elif form == "cap":
+                if depth2 and k >= 2:
+                    parts.append("cap { capone %s }" % " ".join(["tv G"] * (k - 1)))
+                    wants.append(encs[i]); wants.append(b"".join(encs[i:i + k]))
+                else:
+                    parts.append("cap { %s }" % " ".join(["tv G"] * k))
+                    wants.append(b"".join(encs[i:i + k]))
+            else:
+                parts.append("capall")
+                wants.append(b"".join(encs[i:i + k]))
+            i += k
+        if rng.random() < 0.3:
+            parts.append(rng.choice(["tov G", "capall", "skipall", "cap { tov G }"]))   # runs into the end
+            if parts[-1] == "capall" or parts[-1].startswith("cap {"):
+                wants.append(b"")
+        wants.append(b"".join(encs))          # the outer capture
+        inner = "cap { %s } all" % " ".join(parts)
+        data_body = b"".join(encs)
+        if ctx == "top":
+            data, script = data_body, inner
+        elif ctx == "def":
+            data, script = b"\x30" + length(len(data_body)) + data_body, "tc { %s }" % inner
+        elif ctx == "indef_in_def":
+            mid = b"\xa1\x80" + data_body + b"\x00\x00"
+            sib = b"\x01\x01\xff"
+            data, script = b"\x30" + length(len(mid) + len(sib)) + mid + sib, "tc { tc { %s } all }" % inner
+        else:
+            eoc = b"\x00\x00"
+            if m == "ber" and rng.random() < 0.3:
+                eoc = rng.choice([b"\x00\x81\x00", b"\x00\x82\x00\x00"])
+            data, script = b"\x30\x80" + data_body + eoc, "tc { %s }" % inner
+        src = rng.choice(["slice", "bytes", "chunk2", "stingy"])
+        req = "run %s %s %s %s" % (m, src, hx(data), " ".join(script.split()))
+        out.append(req)
+        NESTED[req] = wants
     return out
+
+NESTED = {}
 
 def relational(reqs, answers):
     fails = []
     idx = {r: a for r, a in zip(reqs, answers)}
+    for r, wants in NESTED.items():
+        a = idx.get(r)
+        if a is None:
+            continue
+        spec = " ".join("C" + hx(w) for w in wants)
+        if not a.startswith("ok "):
+            fails.append({"request": r, "impl": a, "spec": "ok … " + spec}); continue
+        caps = [t[1:] for t in a.split() if t.startswith("C")]
+        if caps != [hx(w) for w in wants]:
+            fails.append({"request": r, "impl": a[:500], "spec": "every capture, nested or not, returns exactly the values read inside it (inner first): " + spec})
     for r, (want, eoc, inplace, follow, nofollow) in ORACLE.items():
         a = idx.get(r)
         if a is None or not a.startswith("ok "):
@@ -145,5 +226,5 @@ def nontrivial(req, ans):
     return ans.startswith("ok") and " C" in ans and " C- " not in ans
 
 LEVEL = "proof"
-LEVEL_TEXT = "Lean 4 theorems: for every closure that does not itself open a nested capture, Constructed::capture returns exactly the octets the closure advanced over - minus the end-of-contents marker of the enclosing value if the closure read it (state changed; eoc_len octets, Constructed.eoc in the model) -, decoding continues immediately after what was advanced over, the enclosing limit is reduced by exactly that amount and an enclosing capture sees all of it (capture_exact; capture_one_exact, capture_all_exact). capture_one returns exactly the octets of ONE complete value the grammar accepts at the capture position, the Constructed is unchanged and decoding continues right behind it (C11b.capture_one_value, via the skip-machine theorems of C10). NEVER THE END-OF-CONTENTS MARKER: inside an indefinite-length value whose content is, by the grammar of the mode, the values ts followed by end-of-contents, capture_all returns octets that parse, on their own, as exactly ts with nothing left, the Constructed is done and decoding continues behind the marker (C11b.capture_all_indef_values, on C11b.untilEoc_values: the octets in front of the marker the grammar stops at are exactly the values; kernel-checked witness of the repaired defect D12: eoc_not_captured). The grammar is local (C11b.parse_prefix), so the captured octets parsed on their own - by the grammar and, through C02, by the generic reader at top level - are exactly those values: decoding later = decoding in place (C11b.captured_value_decodes, captured_value_read_later, decode_later_same); writing captured data back out reproduces it unchanged (C11b.reencode_unchanged). Correspondence + generator oracle: captures of j <= n values by every accessor family in definite/indefinite/top-level/nested parents (bodies that do and do not observe the end of the parent), later decode / decode_partial, over slice/bytes/stingy/chunked sources."
-LEVEL_NOTE = 'Trusted: Lean 4.33 kernel; axioms propext, Classical.choice, Quot.sound only; the hand-written model (lean/Bcder/Model) tied to /repo on every run by differential correspondence (tools/check.py, harness/, lean/Driver.lean); reference definitions lean/Bcder/Spec. That the octets advanced over by an arbitrary closure are complete value encodings is the frame lemma of C02; for arbitrary capture bodies (other than capture_one / capture_all) the exclusion of the end-of-contents marker is capture_exact + the value of eoc_len given by C02/C10 for each reader (pnv_eq, skip_absent_iff: eoc = octets of the marker) and the correspondence check; captures inside a capture body, to any depth, are inside capture_exact_tracks (the closure need only track, which captures themselves do: tracks_capture, tracks_bind; nested_capture_exact, nested_example). Source::pos is modelled by the number of octets left in the base source (only differences of positions are used).'
+LEVEL_TEXT = "Lean 4 theorems: for every closure that tracks - capture-free ones and, since capture_exact_tracks, closures that open further captures to any depth (tracks_capture, tracks_bind) - Constructed::capture returns exactly the octets the closure advanced over - minus the end-of-contents marker of the enclosing value if the closure read it (state changed; eoc_len octets, Constructed.eoc in the model) -, decoding continues immediately after what was advanced over, the enclosing limit is reduced by exactly that amount and an enclosing capture sees all of it (capture_exact; capture_one_exact, capture_all_exact). capture_one returns exactly the octets of ONE complete value the grammar accepts at the capture position, the Constructed is unchanged and decoding continues right behind it (C11b.capture_one_value, via the skip-machine theorems of C10). NEVER THE END-OF-CONTENTS MARKER: inside an indefinite-length value whose content is, by the grammar of the mode, the values ts followed by end-of-contents, capture_all returns octets that parse, on their own, as exactly ts with nothing left, the Constructed is done and decoding continues behind the marker (C11b.capture_all_indef_values, on C11b.untilEoc_values: the octets in front of the marker the grammar stops at are exactly the values; kernel-checked witness of the repaired defect D12: eoc_not_captured). The grammar is local (C11b.parse_prefix), so the captured octets parsed on their own - by the grammar and, through C02, by the generic reader at top level - are exactly those values: decoding later = decoding in place (C11b.captured_value_decodes, captured_value_read_later, decode_later_same); writing captured data back out reproduces it unchanged (C11b.reencode_unchanged). Correspondence + generator oracle: captures of j <= n values by every accessor family in definite/indefinite/top-level/nested parents (bodies that do and do not observe the end of the parent), later decode / decode_partial, over slice/bytes/stingy/chunked sources."
+LEVEL_NOTE = 'Trusted: Lean 4.33 kernel; axioms propext, Classical.choice, Quot.sound only; the hand-written model (lean/Bcder/Model) tied to /repo on every run by differential correspondence (tools/check.py, harness/, lean/Driver.lean); reference definitions lean/Bcder/Spec. That the octets advanced over by an arbitrary closure are complete value encodings is the frame lemma of C02; for arbitrary capture bodies (other than capture_one / capture_all) the exclusion of the end-of-contents marker is capture_exact + the value of eoc_len given by C02/C10 for each reader (pnv_eq, skip_absent_iff: eoc = octets of the marker) and the correspondence check; captures inside a capture body, to any depth, are inside capture_exact_tracks (the closure need only track, which captures themselves do: tracks_capture, tracks_bind; nested_capture_exact, nested_example). That the bookkeeping field eoc IS the size of the marker and stays it is C11c: for every closure built from the readers (take_* with capture-free value closures, skip_opt / skip_one / skip_all, sequencing, capture / capture_one / capture_all of such closures, to any depth - the family Good, closed under these combinators) the Constructed is left as it was or has been closed with eoc = the size of an end-of-contents header at the end of the octets moved over, and a reader applied to a closed Constructed does nothing; hence capture_no_marker: capture never returns the marker. This is exactly where the repaired defect D12b sat (a nested capture on a closed value reset the field); it was found by the correspondence check after seeded change C11-6 widened the generator, and the theorem was added afterwards. Source::pos is modelled by the number of octets left in the base source (only differences of positions are used).'
